@@ -161,7 +161,10 @@ class Recorder(object):
             dH_int = float(np.dot(m, T1 - T0))          # (kg/s K); times cp below
             qp = 0.0 if q is None or q.get('pins') is None else float(np.sum(q['pins']))
             qc = 0.0 if q is None or q.get('cool') is None else float(np.sum(q['cool']))
-            Qgen = (qp + qc) * dz
+            # everything the power object hands out for this step is heat generated over the step: a
+            # component meant for the other kind of region (step straddling a region boundary) counts too
+            qx = 0.0 if q is None or q.get('refl') is None else float(np.sum(q['refl']))
+            Qgen = (qp + qc + qx) * dz
             sc = reg.subchannel
             ni = sc.n_sc['coolant']['interior']
             typ = sc.type[ni:sc.n_sc['coolant']['total']]
@@ -243,6 +246,9 @@ class Recorder(object):
             cp_0 = self._cp(reg, Tbar0)
             dH = float(np.dot(m, T1 - T0))
             qr = 0.0 if q is None or q.get('refl') is None else float(np.sum(q['refl']))
+            for kk in ('pins', 'cool'):
+                if q is not None and q.get(kk) is not None:
+                    qr += float(np.sum(q[kk]))
             Qgen = qr * dz
             if adiabatic:
                 Qw = 0.0
